@@ -158,6 +158,95 @@ def run(chk):
     from . import clones
     clones.rule_clones(chk, 'N1', floor=100)
     clones.rule_const_width(chk, 'N2', floor=100)
+    run_r4(chk, P)
     # R3b shared with C20
     from . import c20
     c20.run_f1(chk, P)
+
+
+# ---------------------------------------------------------------------------------------------- R4: ISA containment
+
+FEATURE_OF_CLASS = {'AVX': 'IMB_FEATURE_AVX', 'AVX2': 'IMB_FEATURE_AVX2', 'AVX512_SKX': 'IMB_FEATURE_AVX512_SKX', 'AESNI': 'IMB_FEATURE_AESNI',
+                    'PCLMULQDQ': 'IMB_FEATURE_PCLMULQDQ', 'SHANI': 'IMB_FEATURE_SHANI', 'VAES': 'IMB_FEATURE_VAES',
+                    'VPCLMULQDQ': 'IMB_FEATURE_VPCLMULQDQ', 'GFNI': 'IMB_FEATURE_GFNI', 'AVX512_IFMA': 'IMB_FEATURE_AVX512_IFMA',
+                    'AVX_IFMA': 'IMB_FEATURE_AVX_IFMA', 'BMI2': 'IMB_FEATURE_BMI2', 'SM3NI': 'IMB_FEATURE_SM3NI', 'SM4NI': 'IMB_FEATURE_SM4NI',
+                    'SHA512NI': 'IMB_FEATURE_SHA512NI',
+                    # VBMI / VBMI2 / VNNI / BITALG have no feature bit of their own: the library treats them as present with VAES on AVX512
+                    'AVX512_ICL': 'IMB_FEATURE_VAES'}
+
+
+def run_r4(chk, P):
+    """every assembly routine a variant can reach (called or bound from its TU, transitively through assembly callees) uses only
+    instruction-set extensions whose feature bits the variant's init has tested (own mask + the front end's), or that a feature
+    test dominating the reference establishes"""
+    from .. import asmfacts
+    r = chk.rule('R4', 'every assembly routine reachable from a variant uses only instruction-set extensions covered by the feature bits the '
+                       'variant requires (or by a feature test dominating the call): no unsupported instruction can be executed', floor=1500)
+    st = {name: res for _, name, res in asmfacts.all_functions()}
+    anyM = build.macros()
+
+    def closure(name, seen):
+        if name in seen or name not in st:
+            return
+        seen.add(name)
+        for c in st[name].get('calls', {}):
+            closure(c, seen)
+    need_cache = {}
+
+    def need(name):
+        if name not in need_cache:
+            seen = set()
+            closure(name, seen)
+            nd = {}
+            for n in seen:
+                for c, a in st[n].get('isa', {}).items():
+                    nd.setdefault(c, (n, a))
+            need_cache[name] = nd
+        return need_cache[name]
+    for tu in P.variant_tus():
+        vt = tu.split('__')[0]
+        M = anyM[tu]
+        mask = inits.macro_value(M, 'IMB_CPUFLAGS_%s' % vt.upper())
+        arch = vt.split('_')[0]
+        base = inits.macro_value(M, 'IMB_CPUFLAGS_%s' % arch.upper())
+        if mask is None:
+            mask = base
+        if mask is None:
+            chk.broken('%s: IMB_CPUFLAGS_%s not evaluable' % (tu, vt.upper()))
+            continue
+        bits = {c: inits.macro_value(M, fn) for c, fn in FEATURE_OF_CLASS.items()}
+        for f in P.funcs(tu):
+            for bid, b in f.blocks.items():
+                names = set()
+                for ev in b['ev']:
+                    for k in ('e', 'lhs', 'rhs', 'val'):
+                        if ev.get(k) is not None:
+                            for nd in cf.walk(ev[k]):
+                                if nd.get('k') == 'call' and nd.get('fn') in st:
+                                    names.add(nd['fn'])
+                                if nd.get('k') == 'ref' and nd.get('fn') and nd.get('n') in st:
+                                    names.add(nd['n'])
+                    if ev['k'] == 'decl':
+                        for d in ev['d']:
+                            if d.get('init') is not None:
+                                for nd in cf.walk(d['init']):
+                                    if nd.get('k') == 'ref' and nd.get('fn') and nd.get('n') in st:
+                                        names.add(nd['n'])
+                if not names:
+                    continue
+                local = None
+                for n in sorted(names):
+                    nd = need(n)
+                    missing = {c: w for c, w in nd.items() if bits.get(c) is not None and (mask & bits[c]) != bits[c]}
+                    key = '%s:%s->%s' % (vt, f.name, n)
+                    if missing:
+                        if local is None:
+                            local, _ = inits.masks_guarding(f, bid)
+                        missing = {c: w for c, w in missing.items() if ((mask | local) & bits[c]) != bits[c]}
+                    if missing:
+                        c, (wn, wa) = sorted(missing.items())[0]
+                        r.bad(key, st[wn]['lines'].get(wa, wn),
+                              '%s (%s) reaches %s, which executes %s instructions (in %s); the variant only requires %s' % (
+                                  f.name, vt, n, '/'.join(sorted(missing)), wn, 'IMB_CPUFLAGS_%s' % vt.upper()))
+                    else:
+                        r.ok(key)
